@@ -327,6 +327,15 @@ class Specialiser:
         if isinstance(e, jn.Getattr):
             obj = self._value(e.node, env, loop) if not isinstance(e.node, jn.Name) else env.get(e.node.name, e.node.name)
             return self.attr_value(obj, e.attr, jtext(e))
+        if isinstance(e, jn.CondExpr):
+            # {{ a if test else b }}: the test is decided by the configuration like an {% if %}
+            if self.cond(e.test, env, loop):
+                return self._value(e.expr1, env, loop)
+            return self._value(e.expr2, env, loop) if e.expr2 is not None else ""
+        if isinstance(e, jn.Concat):
+            return "".join(self._value(x, env, loop) for x in e.nodes)
+        if isinstance(e, jn.Add) and isinstance(e.left, (jn.Const, jn.CondExpr, jn.Concat, jn.Add)) :
+            return self._value(e.left, env, loop) + self._value(e.right, env, loop)
         raise AnalysisError(f"template expression `{jtext(e)}` not supported by the specialiser")
 
     def attr_value(self, obj: str, attr: str, text: str) -> str:
